@@ -45,10 +45,11 @@ def comparable(o):
 
 
 def canon(o):
-    """Both back ends signal the documented Vec bounds panics differently (TS: Error message, wasm: unreachable)."""
+    """The documented Vec bounds panics are ordinary panics with a fixed message in both back ends (the TypeScript runner
+    labels them vec-bounds); a bare `unreachable` of the WebAssembly runtime is a different ending."""
     k = o['ending']['kind']
-    if k in ('vec-bounds', 'unreachable'):
-        return {'lines': o['lines'], 'ending': {'kind': 'vec-bounds', 'detail': ''}}
+    if k == 'vec-bounds':
+        return {'lines': o['lines'], 'ending': {'kind': 'panic', 'detail': o['ending'].get('detail', '')}}
     return o
 
 
